@@ -14,15 +14,15 @@ SPEC = {'level': 'exploration',
             gen('vh_c24', 'c24_postlinearize', 24000, 400000, min_cases_quick=10000,
                 floors={'>=2-components': 0.15, 'equal-feerate-tie': 0.3, 'strictly-improved': 0.1, 'order-changed': 0.2},
                 rule='clusters <= 64 txs x topological order; PostLinearize twice'),
-            gen('vh_c24', 'c24_bruteforce', 16000, 300000, min_cases_quick=6000,
+            gen('vh_c24', 'c24_bruteforce', 8000, 150000, min_cases_quick=3000,
                 floors={'optimal-reported': 0.9, 'orders:25-720': 0.1, 'tree-optimality-checked': 0.1},
                 rule='clusters <= 7 txs, all topological orders enumerated'),
             enum('vh_c24', 'c24_small_exhaustive', tiers=('thorough',), rule='exhaustive: all 262144 four-transaction clusters over {edges} x fees {0,1,2,5} x sizes {1,3}'),
-            gen('vh_c24', 'up_clusterlin_linearize', 3000, 60000, rule='upstream fuzz target, supplementary'),
-            gen('vh_c24', 'up_clusterlin_postlinearize', 4000, 80000, rule='upstream fuzz target, supplementary'),
-            gen('vh_c24', 'up_clusterlin_postlinearize_tree', 3000, 60000, rule='upstream fuzz target, supplementary'),
-            gen('vh_c24', 'up_clusterlin_sfl', 3000, 60000, rule='upstream fuzz target, supplementary'),
-            gen('vh_c24', 'up_clusterlin_chunking', 4000, 80000, rule='upstream fuzz target, supplementary')]}
+            gen('vh_c24', 'up_clusterlin_linearize', 2000, 40000, rule='upstream fuzz target, supplementary'),
+            gen('vh_c24', 'up_clusterlin_postlinearize', 3000, 60000, rule='upstream fuzz target, supplementary'),
+            gen('vh_c24', 'up_clusterlin_postlinearize_tree', 2000, 40000, rule='upstream fuzz target, supplementary'),
+            gen('vh_c24', 'up_clusterlin_sfl', 2000, 40000, rule='upstream fuzz target, supplementary'),
+            gen('vh_c24', 'up_clusterlin_chunking', 3000, 60000, rule='upstream fuzz target, supplementary')]}
 
 META = {'level_text': 'Generated clusters (all structural shapes, 1..64 transactions, fee/size families with ties, zeros, negatives and extremes) with generated input '
                'linearizations and cost budgets; every output of Linearize / PostLinearize is checked with independent code: permutation, topological on the '
